@@ -24,6 +24,11 @@ func (c *IContext) Cancel() {
 	c.p.canceled = true
 }
 
+// Resume 重新生效: 取消之后又有方法被 mock 到此上下文
+func (c *IContext) Resume() {
+	c.p.canceled = false
+}
+
 // Canceled 是否已经被取消
 func (c *IContext) Canceled() bool {
 	return c.p.canceled
